@@ -374,6 +374,23 @@ Theorem upload_follow_up_decision_as_modelled :
     "ErrNotFound => current snapshot listed on the chain, contract active; found => handover scheduled"%string.
 Proof. split; reflexivity. Qed.
 
+(** 21. T: no state of the evm keeper outside the store that the model does not know.  The fields of
+    the Keeper struct are the collaborators, the codec, the id generator, the listeners and the
+    consensus checker -- no map, cache or memo (a remembered projection of a snapshot would have to
+    be keyed by everything the projection depends on, the chain included); and
+    attestTransactionIntegrity projects the named snapshot for the MESSAGE'S OWN chain by calling
+    transformSnapshotToCompass itself (the model's [valset_at], per chain in the correspondence). *)
+Theorem evm_keeper_has_no_unmodelled_memory :
+  G.evm_keeper_fields =
+    ["cdc codec.BinaryCodec"; "storeKey corestore.KVStoreService"; "authority string";
+     "ConsensusKeeper types.ConsensusKeeper"; "SchedulerKeeper types.SchedulerKeeper"; "Valset types.ValsetKeeper";
+     "Skyway types.SkywayKeeper"; "ider keeperutil.IDGenerator"; "msgSender types.MsgSender";
+     "msgAssigner types.MsgAssigner"; "AddressCodec address.Codec";
+     "onMessageAttestedListeners []metrixtypes.OnConsensusMessageAttestedListener";
+     "consensusChecker *libcons.ConsensusChecker"]%string /\
+  G.integrity_valset_projection = "transformSnapshotToCompass(snapshot, chainReferenceID, logger)"%string.
+Proof. split; reflexivity. Qed.
+
 (** 7. T — over the argument lists extracted from eth_txable.go: every action-bearing field is
     packed, and equal expected calls mean the same call. *)
 Theorem packed_covers_action_fields : forall k f, In f (required k) -> In f (packed_of k).
@@ -427,3 +444,4 @@ Print Assumptions user_deployment_success_lands_on_own_record.
 Print Assumptions own_record_clause_refuted_when_keyed_by_update_height.
 Print Assumptions processed_key_written_is_the_key_read.
 Print Assumptions upload_follow_up_decision_as_modelled.
+Print Assumptions evm_keeper_has_no_unmodelled_memory.
